@@ -12,6 +12,8 @@ CONSTANTS
   RepoWrapped = TRUE
   EmbFinally = TRUE
   RestoreOnReturn = FALSE
+  EmbRestoreAll = TRUE
+  SuperCheckFirst = TRUE
 INVARIANT TypeOK
 INVARIANT ImplRefinesReq
 INVARIANT PositionFileOK
